@@ -307,6 +307,52 @@ pub fn check_transition(tz: Tz, tr: &Transition, all: &[Transition], quick: bool
     }
 }
 
+/// "Returned interval bounds never go backwards in absolute time" in time-zone contexts that
+/// also carry an interval-size bound (the bounded iterator has its own return path): every
+/// expression × zone × bound × window of a small alphabet, every interval of the stream.
+fn check_bounded_contexts(acc: &mut Acc) {
+    let exprs = ["24/7", "Mo 10:00-12:00", "Jan 01", "2024 Jan 01 10:00-12:00; 2024 Jun 01 10:00-12:00", "Mo-Fr 10:00-18:00; Jul off", "week 10 Mo 22:00-26:00"];
+    let zones = [chrono_tz::Europe::Paris, chrono_tz::America::New_York, chrono_tz::Pacific::Apia, chrono_tz::UTC];
+    let starts = [(1899, 12, 31), (2023, 12, 25), (2024, 3, 30), (2024, 6, 1), (9999, 12, 1)];
+    let spans = [1i64, 40, 400, 4000];
+    for e in exprs {
+        let Ok(oh) = OpeningHours::parse(e) else { continue };
+        for tz in zones {
+            for bound_days in [1i64, 10, 366] {
+                let ohb = oh.clone().with_context(Context::default().with_locale(TzLocation::new(tz)).approx_bound_interval_size(Duration::days(bound_days)));
+                for (y, m, d) in starts {
+                    for span in spans {
+                        let from = Utc.with_ymd_and_hms(y, m, d, 0, 0, 0).unwrap().with_timezone(&tz);
+                        let to = from + Duration::days(span);
+                        acc.add("evaluations", 1);
+                        acc.add("bounded_context_windows", 1);
+                        let case = json!({"bounded": true, "expr": e, "tz": tz.name(), "bound_days": bound_days, "from_utc": fmt_dt(from.naive_utc()), "span_days": span});
+                        let got = catch(|| ohb.iter_range(from, to).take(200).map(|r| (r.range.start.naive_utc(), r.range.end.naive_utc())).collect::<Vec<_>>());
+                        match got {
+                            Err(p) => acc.violate(Violation::new("panic", vec!["bounded_context".into()], case, format!("[{}] `{e}` bound {bound_days} d: iter_range panicked: {} at {}", tz.name(), p.msg, p.loc))),
+                            Ok(v) => {
+                                let mut prev: Option<NaiveDateTime> = None;
+                                let mut bad = None;
+                                for (s, en) in &v {
+                                    if en < s || prev.map(|p| *s < p).unwrap_or(false) {
+                                        bad = Some((*s, *en, prev));
+                                        break;
+                                    }
+                                    prev = Some(*en);
+                                }
+                                match bad {
+                                    None => acc.add("traces_validated_against_impl", 1),
+                                    Some((s, en, p)) => acc.violate(Violation::new("interval_bounds_go_backwards", vec!["bounded_context".into()], case, format!("[{}] `{e}` with an interval-size bound of {bound_days} d: iter_range({}Z, +{span} d) yields [{}Z .. {}Z) after an interval that ended at {:?}Z", tz.name(), fmt_dt(from.naive_utc()), fmt_dt(s), fmt_dt(en), p.map(fmt_dt)))),
+                                }
+                            }
+                        }
+                    }
+                }
+            }
+        }
+    }
+}
+
 pub fn run(cfg: &Cfg) -> Outcome {
     // all transitions of all zones
     let per_zone: Vec<(Tz, Vec<Transition>)> = TZ_VARIANTS.par_iter().map(|tz| (*tz, transitions(*tz, 1900, 2040))).collect();
@@ -344,6 +390,7 @@ pub fn run(cfg: &Cfg) -> Outcome {
         acc.merge(a);
     }
     acc.add("distinct_nontrivial", work.len() as u64);
+    check_bounded_contexts(&mut acc);
     let not_aligned = per_zone.iter().flat_map(|(_, v)| v.iter()).filter(|tr| tr.after > tr.before && (tr.t + Duration::seconds(tr.after as i64)).second() != 0).count();
     for (zi, ti) in work.iter().step_by((work.len() / 4).max(1)).take(4) {
         let (tz, trs) = &per_zone[*zi];
@@ -356,7 +403,7 @@ pub fn run(cfg: &Cfg) -> Outcome {
     o.cov("transitions_1900_2040_all_zones", json!(total));
     o.cov("distinct_signatures", json!(signatures.len()));
     o.cov("gaps_whose_end_is_not_minute_aligned", json!(not_aligned));
-    o.cov("rule", json!("exhaustive over the tz database compiled into the binary: every UTC-offset transition 1900..2040 of every zone (thorough) / one zone per distinct (offset before, offset after, local time of day) signature (quick) × instants T−90..T+90 min (every minute thorough, every 3rd + the ±1/±30/±60 neighbourhoods quick; ±26 h in 15-min steps for date-line changes) × input zone ∈ {context zone, UTC, Pacific/Kiritimati, Etc/GMT+12} × expressions (8 fixed + spans placed on the transition's own wall-clock times). Oracle: wall(x) from offset_from_utc_datetime; state/next_change/iter_range(x, x+4h) must equal the location-free evaluation at wall(x) with every returned instant mapped back as the statement prescribes (later instant when ambiguous, first valid instant after a gap), results in the context zone, bounds never going backwards. states = (zone, transition, expr, instant, input zone)"));
+    o.cov("rule", json!("exhaustive over the tz database compiled into the binary: every UTC-offset transition 1900..2040 of every zone (thorough) / one zone per distinct (offset before, offset after, local time of day) signature (quick) × instants T−90..T+90 min (every minute thorough, every 3rd + the ±1/±30/±60 neighbourhoods quick; ±26 h in 15-min steps for date-line changes) × input zone ∈ {context zone, UTC, Pacific/Kiritimati, Etc/GMT+12} × expressions (8 fixed + spans placed on the transition's own wall-clock times). Oracle: wall(x) from offset_from_utc_datetime; state/next_change/iter_range(x, x+4h) must equal the location-free evaluation at wall(x) with every returned instant mapped back as the statement prescribes (later instant when ambiguous, first valid instant after a gap), results in the context zone, bounds never going backwards; the last clause also in contexts that carry an interval-size bound (6 expressions × 4 zones × 3 bounds × 20 windows). states = (zone, transition, expr, instant, input zone)"));
     o.assume("chrono-tz's compiled tz data and offset_from_utc_datetime (UTC→local is total and unambiguous, so it is a safe reference direction)");
     o.assume("transitions after 2040 follow the same rule-generated signatures");
     o
@@ -364,6 +411,10 @@ pub fn run(cfg: &Cfg) -> Outcome {
 
 pub fn replay(_cfg: &Cfg, case: &Value) -> Vec<Violation> {
     let mut acc = Acc::new();
+    if case.get("bounded").is_some() {
+        check_bounded_contexts(&mut acc);
+        return acc.groups.into_values().flat_map(|g| g.examples).collect();
+    }
     let Some(name) = case.get("tz").and_then(|v| v.as_str()) else { return vec![] };
     let Ok(tz) = name.parse::<Tz>() else { return vec![] };
     let Some(x) = case.get("x_utc").and_then(|v| v.as_str()).and_then(parse_dt) else { return vec![] };
